@@ -4,7 +4,7 @@
 From Coq Require Import List Arith Bool ZArith.
 From Gen Require Import Bounds.
 From Coq Require Import Permutation.
-From C20 Require Import Model Proofs ProofsPerm.
+From C20 Require Import Model Proofs ProofsPerm AcceptLoop.
 Import ListNotations.
 
 (* (i) semanal_main.process_top_levels: for every oracle the `while worklist:` header is evaluated at most
@@ -139,3 +139,34 @@ Theorem format_pretty_unguarded_refuted : exists src line,
   (0 < line)%Z /\ src <> [] /\ pretty_access true src line = IndexError.
 Proof. exact pretty_access_unguarded_above. Qed.
 Print Assumptions format_pretty_unguarded_refuted.
+
+(* (v) checker.accept_loop (loop bodies are re-checked until the binder frame stops changing): for ANY behaviour of
+   checking the body the loop ends after at most ACCEPT_LOOP_CAP-1 executions, by `break` or by
+   RuntimeError("Too many iterations when checking a loop") *)
+Theorem accept_loop_terminates :
+  forall (St : Type) (accept : St -> nat -> nat -> St * (nat * bool * nat)) st po wo,
+    exists o n, accept_loop St accept al_fuel st po wo = Some (o, n) /\ n <= ACCEPT_LOOP_CAP - 1 /\
+                (fst o = Done \/ fst o = RaisedRuntimeError).
+Proof. exact AcceptLoop.accept_loop_terminates. Qed.
+Print Assumptions accept_loop_terminates.
+
+(* (v) under the contract "after the frame/widening thresholds the number of partial types no longer changes"
+   the RuntimeError (an uncaught exception = internal failure) cannot be raised *)
+Theorem accept_loop_terminates_under_contract :
+  forall (St : Type) (accept : St -> nat -> nat -> St * (nat * bool * nat)),
+    partials_stable_late St accept ->
+    forall fuel st po wo o n, accept_loop St accept fuel st po wo = Some (o, n) -> fst o <> RaisedRuntimeError.
+Proof. exact AcceptLoop.accept_loop_no_raise_under_contract. Qed.
+Print Assumptions accept_loop_terminates_under_contract.
+
+Example accept_loop_contract_satisfiable : partials_stable_late unit a_converges.
+Proof. exact a_converges_contract. Qed.
+Example accept_loop_example : exists s n, accept_loop unit a_converges al_fuel tt 2 0 = Some ((Done, s), n) /\ n = 3.
+Proof. exact al_example_done. Qed.
+
+(* (v) the contract is necessary: an oracle whose partial-type count keeps flipping reaches the RuntimeError after
+   exactly ACCEPT_LOOP_CAP-1 executions of the body *)
+Theorem accept_loop_contract_necessary : exists s n,
+  accept_loop unit a_partials_flip al_fuel tt 0 0 = Some ((RaisedRuntimeError, s), n) /\ n = ACCEPT_LOOP_CAP - 1.
+Proof. exact al_raise_reachable. Qed.
+Print Assumptions accept_loop_contract_necessary.
